@@ -566,7 +566,7 @@ def correspondence_cases(ctx: vlib.Ctx, n_schemas: int, n_values: int):
 def correspondence(ctx: vlib.Ctx):
     cases, descr = correspondence_cases(ctx, ctx.budget(40, 300), ctx.budget(3, 4))
     name = "format-model-vs-impl-and-libraries"
-    bad, log = vlib.coq_bad_idx("c04_fmt", "Fmt FmtCases", "", "", cases, "case_ok", "fcase", shard=100,
+    bad, log = vlib.coq_bad_idx("c04_fmt", "Fmt FmtCases", "", "", cases, "case_ok", "fcase", shard=100, timeout=1800,
                                 needs=["theories/Fmt.vo", "theories/FmtCases.vo"])
     ctx.count(n=len(cases))
     if bad is None:
@@ -613,7 +613,7 @@ def k11_validation(ctx: vlib.Ctx):
     okf = ("fun c => match c with (d, h, ta, f, cc, e) => match mname d h ta f cc, e with "
            "| Ok (KStr n), Some m => String.eqb n m | Raise _, None => true | _, _ => false end end")
     bad, log = vlib.coq_bad_idx("c04_k11", "PyK_names K11Proofs", "From VerifGen Require Import K11.", "", cases, okf,
-                                "dir * string * list kv * string * kv * option string", shard=400,
+                                "dir * string * list kv * string * kv * option string", shard=400, timeout=1800,
                                 needs=["theories/K11Proofs.vo"])
     ctx.count(n=len(cases))
     if hexbad:
@@ -692,7 +692,7 @@ def k40_validation(ctx: vlib.Ctx):
     okf = ("fun (c: bool * bool * bool * list cinstr) => match c with (dec, b_codec, b_m, got) => "
            "prog_eqb (if dec then decode_prog b_codec b_m else encode_prog b_codec b_m) got end")
     bad, log = vlib.coq_bad_idx("c04_k40", "CodecWrap", "From VerifGen Require Import K40.", "", cases, okf,
-                                "bool * bool * bool * list cinstr", shard=400, needs=["theories/CodecWrapProofs.vo"])
+                                "bool * bool * bool * list cinstr", shard=400, timeout=1800, needs=["theories/CodecWrapProofs.vo"])
     ctx.count(n=len(cases))
     if bad is None:
         ctx.correspondence(name, len(cases), -1, log)
@@ -701,6 +701,143 @@ def k40_validation(ctx: vlib.Ctx):
         ctx.correspondence(name, len(cases), len(bad), str([descr[i] for i in bad[:6]]))
         if bad:
             ctx.not_shown("translation validation K40", str([descr[i] for i in bad[:6]]))
+
+
+def k104a_validation(ctx: vlib.Ctx):
+    """(T) the reading of the format entry points (kernel K104a, from the AST) against the live objects: what the codec
+    classes really hand to CodecCodeBuilder (default dialect, library function), the builder params of the mixin
+    classes, the one-shot aliases; and the library functions the model names (FmtEntries.lib_parse / lib_ser, proved
+    equal to the rows in C04_entry_points_alike) against the functions fmt_law is validated for
+    (c04lib.parse_doc / ser_doc)."""
+    name = "K104a-entry-table-vs-live-objects"
+    if not ctx.kernel_report.get("K104a", {}).get("ok"):
+        ctx.correspondence(name, 0, -1, "kernel K104a not translated: " + str(ctx.kernel_report.get("K104a", {}).get("error")))
+        return
+    import importlib
+    import importlib.util
+    import inspect
+    import os
+    import re
+    from mashumaro.codecs import _builder
+    from mashumaro.dialect import Dialect
+    spec = importlib.util.spec_from_file_location(
+        "vk_k104a_live", os.path.join(os.path.dirname(vlib.COQ), "tools", "kernels", "k104a_format_entries.py"))
+    k104a = importlib.util.module_from_spec(spec)
+    spec.loader.exec_module(k104a)
+    rows = k104a.rows()
+    import json, orjson, yaml, msgpack, tomli_w, tomllib     # noqa: E401
+    ns = {"json": json, "orjson": orjson, "yaml": yaml, "msgpack": msgpack, "tomli_w": tomli_w, "tomllib": tomllib}
+    n, bad = 0, []
+
+    def case(ok, what):
+        nonlocal n
+        n += 1
+        if not ok:
+            bad.append(what)
+
+    def resolve(q):
+        m = re.fullmatch(r'\(?(?:Some |DMergeInto )"([^"]+)"\)?', q)
+        mod, _, attr = m.group(1).rpartition(".")
+        return getattr(importlib.import_module(mod), attr)
+
+    def fn_of_text(t):
+        return eval("lambda _: " + (t if "(_" in t else t + "(_)"), dict(ns))
+
+    trees = [{"a": 1, "b": [1.5, "x", True], "c": {"d": "\u00e9", "e": []}}, {}, {"k": {"z": -3}}]
+
+    def same_fn(F, direction, live, text, what):
+        g = fn_of_text(text)
+        if "(" not in text:
+            case(live is eval(text, dict(ns)), f"{what}: live function is not {text}")
+        for b in trees + ([{"k": b"\x00\xff", "s": "\u00e9"}] if F == "msgpack" else []):
+            try:
+                if direction == "decode":
+                    d = L.ser_doc(F, b)
+                    case(live(d) == g(d) == L.parse_doc(F, d), f"{what}: {text} / live / c04lib.parse_doc differ on {d!r}")
+                else:
+                    case(live(b) == g(b) == L.ser_doc(F, b), f"{what}: {text} / live / c04lib.ser_doc differ on {b!r}")
+            except Exception as e:
+                case(False, f"{what}: {_exc(e)}")
+
+    from mashumaro.helper import pass_through
+
+    class XD_k104a(Dialect):      # a caller's dialect: one strategy the format dialects do not have, one msgpack has
+        serialization_strategy = {bytes: {"serialize": bytes.hex, "deserialize": bytes.fromhex}, int: pass_through}
+
+    rec = []
+    orig_d, orig_e = _builder.CodecCodeBuilder.add_decode_method, _builder.CodecCodeBuilder.add_encode_method
+
+    def spy_d(self, shape_type, obj, fn=None):
+        rec.append((self.default_dialect, fn))
+        return orig_d(self, shape_type, obj, fn)
+
+    def spy_e(self, shape_type, obj, fn=None):
+        rec.append((self.default_dialect, fn))
+        return orig_e(self, shape_type, obj, fn)
+
+    _builder.CodecCodeBuilder.add_decode_method, _builder.CodecCodeBuilder.add_encode_method = spy_d, spy_e
+    try:
+        for F in FORMATS:
+            r = rows[F]
+            cm = importlib.import_module(L.CODEC_MODS[F][0])
+            case((L.CODEC_MODS[F][2], L.CODEC_MODS[F][1]) == (r["decoder_class"], r["encoder_class"]), f"{F}: codec class names")
+            for direction, cname, rule, text in (("decode", r["decoder_class"], r["dec_rule"], r["dec_fn"]),
+                                                 ("encode", r["encoder_class"], r["enc_rule"], r["enc_fn"])):
+                for X in (None, XD_k104a):
+                    rec.clear()
+                    getattr(cm, cname)(typing_list_int(), **({"default_dialect": X} if X is not None else {}))
+                    dd, fn = rec[-1]
+                    what = f"{F} {cname}(default_dialect={getattr(X, '__name__', None)})"
+                    if rule == "DAsIs":
+                        case(dd is X, f"{what}: builder dialect is {dd!r}, rule DAsIs")
+                    else:
+                        cls = resolve(rule)
+                        if X is None:
+                            case(dd is cls, f"{what}: builder dialect is {dd!r}, not {cls.__name__}")
+                        else:
+                            exp = cls.merge(X)
+                            case(dd is not cls and dd is not X and isinstance(dd, type) and issubclass(dd, Dialect)
+                                 and dd.serialization_strategy == exp.serialization_strategy
+                                 and getattr(dd, "omit_none", None) == getattr(exp, "omit_none", None),
+                                 f"{what}: builder dialect is not {cls.__name__}.merge(X)")
+                    case(fn is not None, f"{what}: no library function handed over")
+                    if fn is not None and X is None:
+                        same_fn(F, direction, fn, text, what)
+            case(cm.decode is getattr(cm, r["oneshot"][0]) and cm.encode is getattr(cm, r["oneshot"][1]), f"{F}: one-shot aliases")
+            mm = importlib.import_module(f"mashumaro.mixins.{F}")
+            mcls = getattr(mm, r["mixin_class"])
+            params = mcls.__dict__.get(f"_{r['mixin_class']}__mashumaro_builder_params")
+            if r["m_kind"] == "MGenerated":
+                case(isinstance(params, dict) and set(params) == {"packer", "unpacker"}, f"{F}: live builder params")
+                if isinstance(params, dict):
+                    pk, up = params["packer"], params["unpacker"]
+                    case(pk.get("format_name") == r["m_pack_name"] and up.get("format_name") == r["m_unpack_name"], f"{F}: format names")
+                    case(pk.get("dialect") is resolve(r["m_pack_dialect"]) and up.get("dialect") is resolve(r["m_unpack_dialect"]),
+                         f"{F}: mixin dialect classes")
+                    case(sorted(pk.get("encoder_kwargs", {})) == sorted(k.split("=")[0] for k in r["m_enc_kwargs"]), f"{F}: encoder kwargs")
+                    same_fn(F, "encode", pk["encoder"], r["m_enc_fn"], f"{F} mixin encoder")
+                    same_fn(F, "decode", up["decoder"], r["m_dec_fn"], f"{F} mixin decoder")
+                case((L.MIXIN_METHODS[F][0], L.MIXIN_METHODS[F][1]) == ("to_" + r["m_pack_name"], "from_" + r["m_unpack_name"]),
+                     f"{F}: generated method names")
+            else:
+                case(params is None, f"{F}: a plain mixin has builder params")
+                enc = inspect.signature(getattr(mcls, "to_" + F)).parameters["encoder"].default
+                dec = inspect.signature(getattr(mcls, "from_" + F)).parameters["decoder"].default
+                same_fn(F, "encode", enc, r["m_enc_fn"], f"{F} mixin encoder default")
+                same_fn(F, "decode", dec, r["m_dec_fn"], f"{F} mixin decoder default")
+    except Exception as e:
+        case(False, f"validation crashed: {_exc(e)} {traceback.format_exc()[-600:]}")
+    finally:
+        _builder.CodecCodeBuilder.add_decode_method, _builder.CodecCodeBuilder.add_encode_method = orig_d, orig_e
+    ctx.count(n=n)
+    ctx.correspondence(name, n, len(bad), "; ".join(bad[:6]))
+    if bad:
+        ctx.not_shown("translation validation K104a", "; ".join(bad[:6]))
+
+
+def typing_list_int():
+    import typing
+    return typing.List[int]
 
 
 def names_oracle(ctx: vlib.Ctx):
@@ -742,6 +879,26 @@ class P(%s):
                 L.unload_module(modname)
 
 
+C04_TARGETS = ["props/C04_formats.vo", "props/C04_names.vo", "props/C04_dialects.vo", "props/C04_codec.vo",
+               "props/C04_entries.vo", "theories/FmtCases.vo", "theories/K11Proofs.vo", "theories/CodecWrapProofs.vo"]
+
+
+def prebuild(ctx: vlib.Ctx):
+    """Build the whole cone of the C04 files first, with a generous time budget and a retry when the build was cut
+    short by the machine (timeout / kill under load) rather than by a proof that does not check: the obligations
+    registered afterwards (ctx.theorems re-checks each props file) must not depend on how loaded the machine is.
+    A genuine proof failure is NOT masked: it fails again when the props file is rebuilt by ctx.theorems."""
+    for attempt, jobs in enumerate((6, 2, 1)):
+        br = vlib.coq_make(C04_TARGETS, timeout=2400, jobs=jobs)
+        if br.ok:
+            break
+        cut_short = any(w in (br.log or "") for w in ("Killed", "Terminated", "Error 137", "Error 124", "Error 143",
+                                                       "Cannot allocate memory", "Out of memory"))
+        if br.failed_file is not None and not cut_short:
+            break           # a file does not check: let the obligations report it
+    ctx.coverage["prebuild"] = {"ok": br.ok, "attempts": attempt + 1, "secs": round(br.secs, 1)}
+
+
 def run(ctx: vlib.Ctx):
     ctx.coverage["rule"] = (
         "oracle: generated modules (enums, NamedTuple, TypedDict, nested/inherited dataclasses with 4 format mixins) x "
@@ -775,6 +932,7 @@ def run(ctx: vlib.Ctx):
         "tools/kernels/k11_method_names.py: translator extension (f-strings over str, +=, str-subclass construction) "
         "and coq/theories/PyK_names.v",
     ]
+    prebuild(ctx)
     ctx.theorems("props/C04_formats.vo", ["C04_roundtrip_partial", "C04_roundtrip_refuted", "C04_format_dialects_coherent",
                                           "C04_doc_is_basic", "C04_doc_exact"])
     ctx.theorems("props/C04_names.vo", ["C04_method_names_injective", "C04_method_names_total",
@@ -783,22 +941,26 @@ def run(ctx: vlib.Ctx):
                                            "C04_format_dialect_tables_match_source"], kernels=["K2", "K13", "K41"])
     ctx.theorems("props/C04_codec.vo", ["C04_codec_decode_is_unpack_after_predecoder",
                                         "C04_codec_encode_is_postencoder_after_pack"], kernels=["K40"])
+    ctx.theorems("props/C04_entries.vo", ["C04_entry_points_alike", "C04_decoder_object_is_model_decode",
+                                          "C04_encoder_object_is_model_encode", "C04_codec_objects_roundtrip"],
+                 kernels=["K104a", "K40"])
     ctx.checker_cmd = (f"make -C {vlib.COQ} props/C04_formats.vo props/C04_names.vo props/C04_dialects.vo props/C04_codec.vo "
-                       "(coqc 8.16.1, full .vo build); thorough: coqchk -o on the four files")
+                       "props/C04_entries.vo (coqc 8.16.1, full .vo build); thorough: coqchk -o on the five files")
     if not ctx.quick():     # second opinion on the compiled proofs
         rc, log, _ = vlib.run(["timeout", "900", "coqchk", "-o", "-silent", "-Q", "theories", "Verif", "-Q", "gen", "VerifGen",
                                "-Q", "props", "VerifProps", "VerifProps.C04_formats", "VerifProps.C04_names",
-                               "VerifProps.C04_dialects", "VerifProps.C04_codec"], cwd=vlib.COQ, timeout=930)
+                               "VerifProps.C04_dialects", "VerifProps.C04_codec", "VerifProps.C04_entries"], cwd=vlib.COQ, timeout=930)
         import re as _re
         m = _re.search(r"\* Axioms:\s*(.*?)\n\s*\n", log, _re.S)
         axioms = " ".join(m.group(1).split()) if m else "(summary not found)"
         ok = rc == 0 and axioms == "<none>"
-        ctx.obligation("coqchk -o VerifProps.C04_formats C04_names C04_dialects C04_codec", ok, f"Axioms: {axioms} | " + log[-300:])
+        ctx.obligation("coqchk -o VerifProps.C04_formats C04_names C04_dialects C04_codec C04_entries", ok, f"Axioms: {axioms} | " + log[-300:])
         ctx.trusted.append(f"coqchk -o on the C04 props files: Axioms: {axioms}")
         if not ok:
             ctx.not_shown("coqchk on the C04 props", log[-1000:])
     k11_validation(ctx)
     k40_validation(ctx)
+    k104a_validation(ctx)
     correspondence(ctx)
     broken = bool(ctx.unshown)
     names_oracle(ctx)
